@@ -11,8 +11,15 @@
 (* through the journal, changes its own bit and journals the byte - an unsynchronised  *)
 (* read-modify-write: a seeded "optimisation" (r4C01 / r4C04). Checked on real runs by *)
 (* FsStruct (allocators = bitmaps = ownership) at every snapshot and crash image.      *)
+(* A transaction may also free a number it allocated itself (inode.indbmap gives a      *)
+(* fresh index block back when nothing can be allocated under it). Further negative      *)
+(* controls, all of them changes seeded more than once: EarlyRelease (freed numbers go    *)
+(* back to the in-memory allocator at PreCommit, before the journal has the transaction), *)
+(* FreeFirst (PreCommit writes the free bits before the allocation bits: for a number     *)
+(* allocated and freed by one transaction the last write wins), CancelAlloc (FreeBlock    *)
+(* takes such a number off the allocation list: an abort then forgets it).                *)
 EXTENDS Integers, FiniteSets, TLC
-CONSTANTS N, Txns, ByteRMW
+CONSTANTS N, Txns, ByteRMW, EarlyRelease, FreeFirst, CancelAlloc
 Nums == 0..(N - 1)
 VARIABLES disk, mem, tx
 vars == <<disk, mem, tx>>
@@ -26,13 +33,17 @@ Alloc(t) == /\ tx[t].pc = "run" /\ Cardinality(tx[t].al) < 2
             /\ UNCHANGED disk
 Free(t) ==  /\ tx[t].pc = "run" /\ Cardinality(tx[t].fr) < 2
             (* a transaction frees numbers that belong to an object it has locked: committed, and nobody else's *)
-            /\ \E b \in disk \ UNION {tx[u].fr \cup tx[u].al : u \in Txns} : tx' = [tx EXCEPT ![t].fr = @ \cup {b}]
+            /\ \/ \E b \in disk \ UNION {tx[u].fr \cup tx[u].al : u \in Txns} : tx' = [tx EXCEPT ![t].fr = @ \cup {b}]
+               \/ \E b \in tx[t].al \ tx[t].fr :       \* one of its own allocations
+                    tx' = [tx EXCEPT ![t].fr = @ \cup {b}, ![t].al = IF CancelAlloc THEN @ \ {b} ELSE @]
             /\ UNCHANGED <<disk, mem>>
 PreCommit(t) == /\ tx[t].pc = "run"
                 /\ tx' = [tx EXCEPT ![t].pc = "pre", ![t].img = disk]     \* ByteRMW: the byte as read now
-                /\ UNCHANGED <<disk, mem>>
+                /\ mem' = IF EarlyRelease THEN mem \ tx[t].fr ELSE mem
+                /\ UNCHANGED disk
 Commit(t) == /\ tx[t].pc = "pre"
              /\ disk' = IF ByteRMW THEN (tx[t].img \cup tx[t].al) \ tx[t].fr      \* the whole byte is journalled
+                        ELSE IF FreeFirst THEN (disk \ tx[t].fr) \cup tx[t].al
                         ELSE (disk \cup tx[t].al) \ tx[t].fr                      \* bit objects merge in the journal
              /\ tx' = [tx EXCEPT ![t].pc = "post"] /\ UNCHANGED mem
 PostCommit(t) == /\ tx[t].pc = "post" /\ mem' = mem \ tx[t].fr /\ tx' = [tx EXCEPT ![t] = Idle] /\ UNCHANGED disk
